@@ -1,5 +1,6 @@
 import AgModel.Proofs.RepairRun
 import AgModel.Proofs.BlockstoreInv
+import AgModel.Proofs.BlockstoreFlag
 /-!
 The blockstore invariant at slot / store level, its preservation by `add_shred_from_repair`,
 `add_shred_from_dissemination` and by every step of the repair task, and panic-freedom of the
@@ -9,15 +10,18 @@ namespace AgModel.Repair
 open AgModel.Blockstore AgModel.Merkle
 
 /-- **The blockstore invariant of one slot**: the dissemination spot and every repair spot satisfy
-    `BInv`, repair spots belong to the slot, and a completed repaired block hashes to its key. -/
+    `BInv`, repair spots belong to the slot, a completed repaired block hashes to its key, and every
+    stored shred's last-slice flag agrees with the last-slice marker of its spot (`FlagInv`). -/
 structure SInv (sd : SlotData) : Prop where
   dis : BInv sd.dis
   rep : ∀ h b, repGet sd.rep h = some b → BInv b ∧ b.slot = sd.dis.slot ∧ b.cap = sd.dis.cap
   ok : RepOk sd
+  flg : FlagInv sd.dis ∧ ∀ h b, repGet sd.rep h = some b → FlagInv b
 
 theorem sinv_new (cap slot : Nat) : SInv (SlotData.new cap slot) := by
-  refine ⟨binv_new cap slot, ?_, repOk_new cap slot⟩
-  intro h b hb; simp [SlotData.new, repGet] at hb
+  refine ⟨binv_new cap slot, ?_, repOk_new cap slot, flagInv_new cap slot, ?_⟩
+  · intro h b hb; simp [SlotData.new, repGet] at hb
+  · intro h b hb; simp [SlotData.new, repGet] at hb
 
 theorem flagIfBad_fst_cases (sd : SlotData) (r : AddRes) :
     (flagIfBad sd r).1.dis = sd.dis ∧ (flagIfBad sd r).1.rep = sd.rep := ⟨flagIfBad_dis sd r, flagIfBad_rep sd r⟩
@@ -46,7 +50,12 @@ theorem addRepair_sinv (env : Nat → Content) (sd : SlotData) (h : H) (s : Shre
     | some b => exact hinv.rep h b hg
   obtain ⟨hb', hnp⟩ := addShred_binv env _ s hspot.1
   obtain ⟨hslot, hcap⟩ := addShred_slot_cap env ((repGet sd.rep h).getD (BlockData.new sd.dis.cap sd.dis.slot)) s
-  refine ⟨⟨?_, ?_, addRepair_repOk env sd h s hinv.ok⟩, ?_⟩
+  have hspotf : FlagInv ((repGet sd.rep h).getD (BlockData.new sd.dis.cap sd.dis.slot)) := by
+    cases hg : repGet sd.rep h with
+    | none => exact flagInv_new _ _
+    | some b => exact hinv.flg.2 h b hg
+  have hf' := addShred_flagInv env _ s hspot.1 hspotf
+  refine ⟨⟨?_, ?_, addRepair_repOk env sd h s hinv.ok, ?_, ?_⟩, ?_⟩
   · rw [addRepair_dis]; exact hinv.dis
   · intro h' b hg
     rw [addRepair_dis]
@@ -70,6 +79,28 @@ theorem addRepair_sinv (env : Nat → Content) (sd : SlotData) (h : H) (s : Shre
         · exact hinv.rep h' b hg
       · exact hset b hg
     · exact hset b hg
+  · rw [addRepair_dis]; exact hinv.flg.1
+  · intro h' b hg
+    unfold addRepair at hg
+    simp only [flagIfBad_rep] at hg
+    unfold fileRepair at hg
+    have hset : ∀ b0, repGet (repSet sd.rep h (addShred env ((repGet sd.rep h).getD (BlockData.new sd.dis.cap sd.dis.slot)) s).1) h' = some b0 →
+        FlagInv b0 := by
+      intro b0 hb0
+      rw [repGet_repSet] at hb0
+      split at hb0
+      · simp only [Option.some.injEq] at hb0; subst hb0
+        exact hf'
+      · exact hinv.flg.2 h' b0 hb0
+    split at hg
+    · split at hg
+      · simp only at hg
+        rw [repGet_repDel] at hg
+        split at hg
+        · simp at hg
+        · exact hinv.flg.2 h' b hg
+      · exact hset b hg
+    · exact hset b hg
   · rcases addRepair_res env sd h s with hr | hr
     · rw [hr]; exact hnp
     · rw [hr]; simp
@@ -89,7 +120,9 @@ theorem addDissem_sinv (env : Nat → Content) (sd : SlotData) (s : Shred) (hinv
       split
       · exact ⟨flag_dis _, flag_rep' _, rfl⟩
       · exact ⟨rfl, rfl, rfl⟩
-    refine ⟨⟨by rw [hdis.1]; exact hb', ?_, hok⟩, by rw [hdis.2.2]; exact hnp⟩
+    refine ⟨⟨by rw [hdis.1]; exact hb', ?_, hok,
+      by rw [hdis.1]; exact addShred_flagInv env sd.dis s hinv.dis hinv.flg.1,
+      by intro h b hg; rw [hdis.2.1] at hg; exact hinv.flg.2 h b hg⟩, by rw [hdis.2.2]; exact hnp⟩
     intro h b hg
     rw [hdis.2.1] at hg
     rw [hdis.1]
@@ -107,7 +140,7 @@ theorem addOwn_sinv (sd : SlotData) (c : Commitment) (sz : Nat) (parent : Option
     obtain ⟨b, r⟩ := res
     cases r <;> rfl
   rw [e]
-  refine ⟨h1, ?_, ?_⟩
+  refine ⟨h1, ?_, ?_, addOwnSlice_flagInv sd.dis c sz parent txs hinv.flg.1 hl, hinv.flg.2⟩
   · intro h b hg
     obtain ⟨a1, a2, a3⟩ := hinv.rep h b hg
     exact ⟨a1, a2.trans h2.symm, a3.trans h3.symm⟩
@@ -197,8 +230,8 @@ theorem handleResponse_no_panic (env : Nat → Content) (cap : Nat) (st : Repair
     cases r with
     | shred b i j =>
       simp only [Resp.req] at hout
-      obtain ⟨rfl, hsl, hidx, hroot, rfl⟩ := valid_shred_eq st b i j slot s sigOk hv
-      rw [handle_shred_valid env cap st store b i j s hout hsl hidx hroot]
+      obtain ⟨rfl, hsl, hidx, hroot, hlast, rfl⟩ := valid_shred_eq st b i j slot s sigOk hv
+      rw [handle_shred_valid env cap st store b i j s hout hsl hidx hroot hlast]
       refine ⟨?_, storeInv_set env cap store b s hs⟩
       obtain ⟨hsi, hslot, _⟩ := hs b.slot
       have hnp := (addRepair_sinv env _ b.hash s hsi).2
